@@ -94,6 +94,94 @@ def operable(out: Outcome, rng, cls: str, params: dict, thorough: bool) -> None:
     out.count("accepted_configurations_operated")
 
 
+NUMPY2_ONLY = {"concat", "permute_dims", "matrix_transpose", "vecdot", "astype", "acos", "acosh", "asin", "asinh", "atan", "atanh", "atan2", "pow", "bitwise_left_shift",
+               "bitwise_right_shift", "bitwise_invert", "unique_all", "unique_counts", "unique_inverse", "unique_values", "cumulative_sum", "cumulative_prod", "isdtype", "long",
+               "ulong", "bitwise_count", "unstack", "trapezoid", "StringDType", "strings"}
+
+
+def declared_environment(out: Outcome) -> None:
+    """operability starts with the environment the package DECLARES (pyproject.toml: Python >= 3.9, numpy >= 1.26.3, scipy, requests, matplotlib, tqdm) - this
+    process is one interpreter and one NumPy, so the rest is audited statically on the source of the tree under test: every directory with modules is a regular
+    package (a namespace package imports from a checkout but is left out of a built distribution), only declared distributions and the standard library are imported,
+    the syntax is the declared minimum Python's, and no NumPy name that exists only from 2.0 on is used"""
+    import ast
+    import sys
+    from common import REPO
+    import re as _re
+    root = REPO / "frouros"
+    text = (REPO / "pyproject.toml").read_text()
+    m = _re.search(r'requires-python\s*=\s*">=\s*3\.(\d+)', text)
+    minor = int(m.group(1)) if m else 9
+    deps_block = _re.search(r"\ndependencies\s*=\s*\[(.*?)\]", text, _re.S)
+    declared = {_re.split(r"[<>=!~ \[]", d.strip().strip('",'))[0].lower().replace("-", "_") for d in (deps_block.group(1).split("\n") if deps_block else []) if d.strip().strip('",')}
+    stdlib = set(sys.stdlib_module_names)
+    # modules that a user's import can reach: the packages' __init__ modules and everything they (transitively) import inside the package
+    # (helpers that only the test suite imports - frouros/utils/decorators.py needs pytest - are not part of what runs for a user)
+    files = {f for f in root.rglob("*.py") if "tests" not in f.relative_to(root).parts}
+
+    def resolve(mod: str):
+        q = REPO / (mod.replace(".", "/") + ".py")
+        if q in files:
+            return q
+        q = REPO / mod.replace(".", "/") / "__init__.py"
+        return q if q in files else None
+
+    live, todo = set(), [f for f in files if f.name == "__init__.py"]
+    while todo:
+        f = todo.pop()
+        if f in live:
+            continue
+        live.add(f)
+        try:
+            t = ast.parse(f.read_text())
+        except SyntaxError:
+            continue
+        pkg = ".".join(f.relative_to(REPO).with_suffix("").parts[:-1])
+        for node in ast.walk(t):
+            names = []
+            if isinstance(node, ast.Import):
+                names = [a.name for a in node.names]
+            elif isinstance(node, ast.ImportFrom):
+                base = node.module or ""
+                if node.level:
+                    up = pkg.split(".")[: len(pkg.split(".")) - (node.level - 1)]
+                    base = ".".join(up + ([node.module] if node.module else []))
+                names = [base] + [base + "." + a.name for a in node.names]
+            for nm in names:
+                if nm.startswith("frouros"):
+                    q = resolve(nm)
+                    if q is not None and q not in live:
+                        todo.append(q)
+    for d in sorted({p.parent for p in live}):
+        if not (d / "__init__.py").exists():
+            out.violation(f"{d.relative_to(REPO)} holds modules but no __init__.py: it imports from a source checkout as a namespace package and is left out of a built distribution",
+                          {"kind": "packaging", "directory": str(d.relative_to(REPO))})
+    for f in sorted(live):
+        src = f.read_text()
+        rel = str(f.relative_to(REPO))
+        try:
+            tree = ast.parse(src, feature_version=(3, minor))
+        except SyntaxError as e:
+            out.violation(f"{rel}: not valid Python 3.{minor} (the declared minimum): {e.msg}", {"kind": "syntax", "file": rel})
+            continue
+        np_aliases = set()
+        for node in ast.walk(tree):
+            mods = []
+            if isinstance(node, ast.Import):
+                mods = [a.name for a in node.names]
+                np_aliases |= {a.asname or a.name for a in node.names if a.name == "numpy"}
+            elif isinstance(node, ast.ImportFrom) and node.level == 0 and node.module:
+                mods = [node.module]
+            for mod in mods:
+                top = mod.split(".")[0]
+                if top not in stdlib and top != "frouros" and top.lower() not in declared:
+                    out.violation(f"{rel}: imports '{top}', which is neither the standard library nor a declared dependency ({sorted(declared)})", {"kind": "undeclared import", "file": rel, "module": top})
+        for node in ast.walk(tree):
+            if isinstance(node, ast.Attribute) and isinstance(node.value, ast.Name) and node.value.id in (np_aliases or {"np"}) and node.attr in NUMPY2_ONLY:
+                out.violation(f"{rel}:{node.lineno}: numpy.{node.attr} exists only from NumPy 2.0 on, the package declares numpy >= 1.26.3", {"kind": "numpy api", "file": rel, "name": node.attr})
+    out.case({"declared_environment_audit": True, "python_min": f"3.{minor}", "declared": sorted(declared)})
+
+
 def run(out: Outcome) -> None:
     rng = rng_for(out.seed, "C19")
     thorough = out.tier == "thorough"
@@ -132,6 +220,15 @@ def run(out: Outcome) -> None:
                 det, err = construct(cls, {**base, name: bad})
                 if err is None:
                     out.violation(f"{cls}Config({name}={bad!r}) of the wrong type is accepted", {"class": cls, "param": name, "value": repr(bad)})
+            if kind == "n" and name != "average_run_length":
+                # integer-valued parameters (documented `:type: int`): a non-integral float or NaN is outside the documented domain
+                for bad in (2.5, math.nan):
+                    det, err = construct(cls, {**base, name: bad})
+                    if err is None:
+                        if "KF-C19-2" in out.findings:
+                            out.findings["KF-C19-2"].hits += 1
+                        else:
+                            out.violation(f"{cls}Config({name}={bad!r}): a non-integral value is accepted for an integer-valued parameter", {"class": cls, "param": name, "value": repr(bad)})
         if cls in ("HDDMA", "HDDMW"):
             for bad in (1, "yes", None):
                 _, err = construct(cls, {**base, "two_sided_test": bad})
@@ -148,6 +245,7 @@ def run(out: Outcome) -> None:
         if r.returncode != 0:
             out.violation(f"`import {mod}` as the first frouros import of a process fails: {r.stderr.strip().splitlines()[-1][:200] if r.stderr.strip() else r.returncode}", {"module": mod})
         out.case({"first_import": mod})
+    declared_environment(out)
     # the documented default path: `Detector()` / `Detector(config=None)` builds its own default configuration (for BOCD also its default model) and is operable
     for cls in dets.CLASSES:
         rep = {"class": cls, "config": None}
